@@ -585,7 +585,7 @@ func (c Case) revsubTexts() []ymodel.Source {
 		if c.Nested {
 			inc += " include sub2;"
 		}
-		out = append(out, ymodel.Source{Name: "rm@" + m.Rev + ".yang", Text: fmt.Sprintf("module rm {\n namespace \"urn:rm\";\n prefix r;\n %s\n revision %s;\n leaf top%d { type string; }\n}\n", inc, m.Rev, i)})
+		out = append(out, ymodel.Source{Name: "rm@" + m.Rev + ".yang", Text: fmt.Sprintf("module rm {\n namespace \"urn:rm\";\n prefix r;\n %s\n revision %s;\n leaf top%d { type subt; }\n identity modid { base subid; }\n identity modbase;\n}\n", inc, m.Rev, i)})
 	}
 	for j, d := range c.SubRevs {
 		rev, name, inc := "", "sub.yang", ""
@@ -595,7 +595,7 @@ func (c Case) revsubTexts() []ymodel.Source {
 		if c.Nested {
 			inc = " include sub2;"
 		}
-		out = append(out, ymodel.Source{Name: name, Text: fmt.Sprintf("submodule sub {\n belongs-to rm { prefix r; }%s%s\n leaf sub%d { type string; }\n}\n", inc, rev, j)})
+		out = append(out, ymodel.Source{Name: name, Text: fmt.Sprintf("submodule sub {\n belongs-to rm { prefix r; }%s%s\n leaf sub%d { type string; }\n typedef subt { type string; units \"s%d\"; }\n identity subid;\n identity subderived { base subid; }\n}\n", inc, rev, j, j)})
 	}
 	if c.Nested {
 		out = append(out, ymodel.Source{Name: "sub2.yang", Text: "submodule sub2 {\n belongs-to rm { prefix r; }\n leaf nested { type string; }\n}\n"})
@@ -673,15 +673,49 @@ func checkRevSub(c Case, o *ev.Outcome) {
 				got = append(got, k)
 			}
 			sort.Strings(got)
+			which := "later"
+			if i == 0 {
+				which = "first"
+			}
+			how := "dated-include"
+			if m.SubDate == "" {
+				how = "undated-include"
+			}
+			// typedef and identities of the submodule, as if written in the module
+			e := yang.ToEntry(mod)
+			if l := e.Dir[fmt.Sprintf("top%d", i)]; l == nil || l.Type == nil || l.Type.Units != fmt.Sprintf("s%d", subIdx) {
+				o.Violate("include-is-inline", "C13/revsub/typedef-of-"+which+"-revision/"+how, "load order %v: in rm@%s the type subt is not the typedef of the submodule text its include denotes (sub%d)", perm, m.Rev, subIdx)
+				return
+			}
+			var subid *yang.Identity
+			for _, in := range mod.Include {
+				if in.Module != nil && in.Name == "sub" {
+					for _, id := range in.Module.Identity {
+						if id.Name == "subid" {
+							subid = id
+						}
+					}
+				}
+			}
+			if subid == nil {
+				o.Violate("include-is-inline", "C13/revsub/include-unbound", "load order %v: rm@%s: include of sub is not bound", perm, m.Rev)
+				return
+			}
+			hasMod := false
+			for _, v := range subid.Values {
+				if v.Name == "modid" && yang.RootNode(v) == mod {
+					hasMod = true
+				}
+			}
+			if !hasMod {
+				var names []string
+				for _, v := range subid.Values {
+					names = append(names, yang.RootNode(v).FullName()+":"+v.Name)
+				}
+				o.Violate("include-is-inline", "C13/revsub/identity-of-"+which+"-revision/"+how, "load order %v: the identity modid of rm@%s (base subid, defined in the submodule it includes) is not among the values of that subid: %v", perm, m.Rev, names)
+				return
+			}
 			if fmt.Sprint(got) != fmt.Sprint(want) {
-				which := "later"
-				if i == 0 {
-					which = "first"
-				}
-				how := "dated-include"
-				if m.SubDate == "" {
-					how = "undated-include"
-				}
 				o.Violate("include-is-inline", "C13/revsub/tree-of-"+which+"-revision/"+how, "load order %v: the tree of rm@%s holds %v, expected %v (its own leaf and what its include of sub denotes)", perm, m.Rev, got, want)
 				return
 			}
